@@ -43,7 +43,7 @@ warnings.filterwarnings("ignore", category=DeprecationWarning)
 warnings.filterwarnings("ignore", category=UserWarning)
 
 ID = "C20"
-LEAN_TARGETS = ["RV.C20.Props", "RV.C20.TextProps", "RV.C20.ValuesProps", "RV.C20.Audit"]
+LEAN_TARGETS = ["RV.C20.Props", "RV.C20.TextProps", "RV.C20.ValuesProps", "RV.C20.ConnProps", "RV.C20.Audit"]
 AUDIT = "RV/C20/Audit.lean"
 DRIVER = "drv_c20"
 CASES = {"quick": 600, "thorough": 12000, "search": 4000}
@@ -107,7 +107,29 @@ def TABLES():
             "namespace RV.C20.Tables\n\n"
             "/-- `rdflib.term._invalid_uri_chars`: `URIRef.n3()` raises when one of them occurs -/\n"
             f"def invalidUriChars : List Char := [{chars}]\n\n"
+            + _mime_tables() +
             "end RV.C20.Tables\n")
+
+
+def _mime_tables():
+    """the three tables `SPARQLConnector.response_mime_types` reads: rdflib.util's two maps and the names of the
+    registered ResultParser plugins (sorted: the registry's order has no meaning)"""
+    from rdflib.plugin import plugins
+    from rdflib.query import ResultParser
+    from rdflib.util import FORMAT_MIMETYPE_MAP, RESPONSE_TABLE_FORMAT_MIMETYPE_MAP
+
+    def q(x):
+        return '"' + str(x).replace("\\", "\\\\").replace('"', '\\"') + '"'
+
+    def tab(d):
+        return "[" + ", ".join(f"({q(k)}, [{', '.join(q(v) for v in vs)}])" for k, vs in d.items()) + "]"
+    names = sorted({p.name for p in plugins(kind=ResultParser)})
+    return ("/-- `rdflib.util.FORMAT_MIMETYPE_MAP` -/\n"
+            f"def formatMimetypeMap : List (String × List String) := {tab(FORMAT_MIMETYPE_MAP)}\n\n"
+            "/-- `rdflib.util.RESPONSE_TABLE_FORMAT_MIMETYPE_MAP` -/\n"
+            f"def responseTableMimetypeMap : List (String × List String) := {tab(RESPONSE_TABLE_FORMAT_MIMETYPE_MAP)}\n\n"
+            "/-- names of the registered `ResultParser` plugins -/\n"
+            f"def resultParserNames : List String := [{', '.join(q(n) for n in names)}]\n\n")
 
 
 def tkey(t):
@@ -430,6 +452,7 @@ def model_lines(case):
     ro = cfg == "ro"
     lines = list(VOCAB_LINES)
     lines.append(f"reset {int(case['autocommit'])} {int(case['dirty'])} {int(case['hook'])} {int(ro)}")
+    lines.append(conn_line(case))
     for q in case["init"]:
         lines.append("init " + " ".join(str(x) for x in q[:3]) + " " + _g(q[3]))
     for g in case.get("ginit", []):
@@ -440,7 +463,24 @@ def model_lines(case):
             lines.append("obs")
             lines.append("sent")
             lines.append("senttext")
+            lines.append("senthttp")
     return lines
+
+
+AUTH_VALUE = "Basic dXNlcjpwOncgZA=="     # base64("user:p:w d")
+
+
+def endpoint_paths(case):
+    """(query endpoint, update endpoint) relative to the loop-back server's base URL"""
+    return ("/sparql", "/sparql") if case.get("open", 0) == 2 else ("/query", "/update")
+
+
+def conn_line(case):
+    """the connector configuration for the transport model (lean/RV/C20/Conn.lean)"""
+    qp, up = endpoint_paths(case)
+    auth = _cps(AUTH_VALUE) if case.get("auth") else "-"
+    up_ = "_" if case["cfg"] == "ro" else _cps(up)        # a read-only SPARQLStore has no update endpoint
+    return f"conn {case['method']} {_cps(qp)} {up_} {case['fmt']} {case.get('extra', 0)} {auth}"
 
 
 def op_commands(case, op):
@@ -480,7 +520,7 @@ def op_commands(case, op):
     if k in ("commit", "rollback"):
         return [k]
     if k == "nop":
-        return ["nop"]
+        return ["nop " + op[1]]
     if k == "triples":
         return [f"triples {_w(op[1])} {_w(op[2])} {_w(op[3])} {_g(C('read', op[4]))}"]
     if k == "proj":
@@ -513,9 +553,9 @@ def op_commands(case, op):
 
 def _model_blocks(case, out):
     """per op: (result, endpoint obs, predicted requests, predicted request texts)"""
-    n0 = len(VOCAB_LINES or vocab_lines()) + 1 + len(case["init"]) + len(case.get("ginit", []))
+    n0 = len(VOCAB_LINES or vocab_lines()) + 2 + len(case["init"]) + len(case.get("ginit", []))
     body = out[n0:]
-    return [tuple(body[i:i + 4]) for i in range(0, len(body) - 3, 4)]
+    return [tuple(body[i:i + 5]) for i in range(0, len(body) - 4, 5)]
 
 
 def _merge_blocks(case, blocks):
@@ -529,7 +569,9 @@ def _merge_blocks(case, blocks):
             break
         sent = [b[2] for b in part if b[2] != "-"]
         txt = [b[3] for b in part if b[3] != "none"]
-        res.append((part[-1][0], part[-1][1], " | ".join(sent) if sent else "-", " ".join(txt) if txt else "none"))
+        http = [b[4] for b in part if b[4] != "-"]
+        res.append((part[-1][0], part[-1][1], " | ".join(sent) if sent else "-", " ".join(txt) if txt else "none",
+                    " | ".join(http) if http else "-"))
     return res
 
 
@@ -548,7 +590,7 @@ def _blank_op(case, op):
 
 def select_model_obs(case, out):
     res = []
-    for op, (o, e, sent, _txt) in zip(case["ops"], _merge_blocks(case, _model_blocks(case, out))):
+    for op, (o, e, sent, _txt, http) in zip(case["ops"], _merge_blocks(case, _model_blocks(case, out))):
         b = _blank_op(case, op)
         if b and sent != "-":
             sent = " | ".join(("Q?" if r.startswith("Q") else r) if b == "q" else ("U?" if r.startswith("U") else r)
@@ -557,7 +599,7 @@ def select_model_obs(case, out):
             pos = PROJ_POS[op[1]]
             rows = {tuple(int(t.split(",")[j]) for j in pos) for t in o[2:].split(" ") if t}
             o = "P " + " ".join(",".join(map(str, x)) for x in sorted(rows))
-        res.append(f"{o} ; {e} ; SENT {sent}")
+        res.append(f"{o} ; {e} ; SENT {sent} ; HTTP {http}")
     return res
 
 
@@ -575,7 +617,10 @@ def ing_requests(case):
     return out
 
 
-def driver_session(case, captured):
+ASM_STATS = []
+
+
+def driver_session(case, captured, meta=None):
     """One run of the compiled Lean driver for this case: the model's predicted request texts (to be compared
     with the captured texts here) and the Lean READER applied to every captured request text.
     captured = per op a list of ("u", None, text) | ("q", graph-or-None, text).  Returns per op (decoded, texts)."""
@@ -595,11 +640,24 @@ def driver_session(case, captured):
     ings = ing_requests(case)
     for giri, text in ings:
         lines.append(f"ing {_cps(giri)} {_cps(text)}")
+    # the transport model assembles the HTTP request for every captured text under the configuration of that moment
+    n_pre_asm = len(lines)
+    flat_meta = [m for ms in (meta or []) for m in ms]
+    for m in flat_meta:
+        dg = "-" if m["dg"] is None else _cps(m["dg"])
+        lines.append(f"asm {m['cmethod']} {_cps(m['ep_path'])} {m['cfmt']} {case.get('extra', 0)} "
+                     f"{_cps(AUTH_VALUE) if case.get('auth') else '-'} {m['kind']} {dg} {_cps(m['text'])}")
     p = subprocess.run([exe], input="\n".join(lines) + "\n", stdout=subprocess.PIPE, stderr=subprocess.PIPE,
                        text=True, timeout=60)
     out = p.stdout.split("\n")
     if p.returncode != 0 or len(out) < len(lines):
         return None
+    # statistic: the request as it arrived (URL and body bytes) is byte for byte the one the Lean model assembles
+    same = 0
+    for m, o in zip(flat_meta, out[n_pre_asm:n_pre_asm + len(flat_meta)]):
+        body = "-" if m["raw_body"] is None else ("_" if not m["raw_body"] else ",".join(str(b) for b in m["raw_body"]))
+        same += int(o == f"{_cps(m['raw_path'])} {body}")
+    ASM_STATS.append((len(flat_meta), same))
     blocks = _merge_blocks(case, _model_blocks(case, out[:n_model]))
     dec = out[n_model:n_model + n_dec]
     # statistic: the Lean model of _insert_named_graph rewrites the caller's text character for character like the store
@@ -794,7 +852,7 @@ def run_impl(case):
              "axis_auth": int(bool(case.get("auth"))), "axis_sparql10": int(not case.get("sparql11", True)),
              "axis_not_context_aware": int(not ca), "axis_normalize_literals_off": int(not case.get("norm", True))}
     reached, answered = cfg == "ro", False
-    captured = []
+    captured, captured_meta, http_obs = [], [], []
 
     def bump(k, n=1):
         stats[k] = stats.get(k, 0) + n
@@ -1047,7 +1105,7 @@ def run_impl(case):
         KB, KN = _kq(B), _kn(N)
         obs.append(f"{out} ; " + _fmt_quads([(_tid(s), _tid(p), _tid(o), _gid(g)) for s, p, o, g in B])
                    + " | " + _fmt_names([_gid(n) for n in N]))
-        reqs = []
+        reqs, metas, https = [], [], []
         for ent in ep.log[n_log:]:
             if "text" not in ent:
                 continue
@@ -1056,7 +1114,17 @@ def run_impl(case):
             else:
                 dg = ent.get("default-graph-uri", [])
                 reqs.append(("q", dg[0] if dg else None, ent["text"]))
+            # the request as a SPARQL 1.1 Protocol server understands it (parsed by the endpoint with urllib.parse,
+            # independently of the Lean reader): operation, carrier, path, Accept types, every parameter but the text
+            kind, dg_, text_ = reqs[-1]
+            metas.append({"kind": kind, "dg": dg_, "text": text_, "cmethod": cur["method"], "cfmt": cur["fmt"],
+                          "ep_path": ent["url_path"], "raw_path": ent["raw_path"], "raw_body": ent["raw_body"]})
+            acc = ",".join(sorted(x for x in ent["accept"].split(", ")))
+            ps = "&".join(sorted(f"{_cps(k_)}={_cps(v_)}" for k_, v_ in ent.get("params", [])))
+            https.append(f"{'U' if kind == 'u' else 'Q'} {ent.get('via')} {ent['url_path']} a:{acc} p:{ps}")
         captured.append(reqs)
+        captured_meta.append(metas)
+        http_obs.append(" | ".join(https) if https else "-")
         if any(_tid(x) == UNKNOWN for q in B for x in q[:3]) or any(_gid(q[3]) == UNKNOWN for q in B):
             viol.append(f"term: after op {k_i} the endpoint holds a term that is not one of the terms written: "
                         f"{[q for q in B if UNKNOWN in [_tid(x) for x in q[:3]] + [_gid(q[3])]][:2]!r}")
@@ -1211,13 +1279,17 @@ def run_impl(case):
     #      what the model predicts, compared as part of obs), and where the model has a writer for it the
     #      captured text must be character for character the text the Lean WRITER produces
     del ING_STATS[:]
-    sess = driver_session(case, captured)
+    del ASM_STATS[:]
+    sess = driver_session(case, captured, captured_meta)
+    if ASM_STATS:
+        bump("http_requests_assembled_by_lean", ASM_STATS[0][0])
+        bump("http_requests_byte_identical_to_lean_assembly", ASM_STATS[0][1])
     if ING_STATS:
         bump("named_graph_rewrites", ING_STATS[0][0])
         bump("named_graph_rewrites_found_verbatim_in_a_sent_request", ING_STATS[0][1])
     for k_i, op in enumerate(case["ops"]):
         if sess is None:
-            obs[k_i] += " ; SENT no-driver"
+            obs[k_i] += " ; SENT no-driver ; HTTP " + http_obs[k_i]
             continue
         dec, mtxt = sess[k_i]
         reqs = captured[k_i]
@@ -1234,7 +1306,7 @@ def run_impl(case):
                     bump("texts_compared_with_lean_writer")
                     bump("texts_identical_to_lean_writer", int(m == _cps(text)))
         bump("requests_decoded", len(reqs))
-        obs[k_i] += f" ; SENT {sent}"
+        obs[k_i] += f" ; SENT {sent} ; HTTP {http_obs[k_i]}"
 
     _rdflib.NORMALIZE_LITERALS = norm_before
     return {"obs": obs, "viol": viol, "nontrivial": bool(reached and answered),
